@@ -20,7 +20,9 @@ SPECS = {
  "Global": ("SparseGrids/tsgGridGlobal.cpp", [
      ("acceptUpdatedTensors", r'void\s+GridGlobal::acceptUpdatedTensors\s*\(\s*\)', "(GF *g)"),
      ("loadNeededValues", r'void\s+GridGlobal::loadNeededValues\s*\(\s*const\s+double\s*\*vals\s*\)', "(GF *g)"),
-     ("mergeRefinement", r'void\s+GridGlobal::mergeRefinement\s*\(\s*\)', "(GF *g)")]),
+     ("mergeRefinement", r'void\s+GridGlobal::mergeRefinement\s*\(\s*\)', "(GF *g)"),
+     ("clearRefinement", r'void\s+GridGlobal::clearRefinement\s*\(\s*\)', "(GF *g)"),
+     ("setHierarchicalCoefficients", r'void\s+GridGlobal::setHierarchicalCoefficients\s*\(\s*const\s+double\s+c\[\]\s*\)', "(GF *g)")]),
 }
 
 def rewrite(R, fam, b):
@@ -40,6 +42,8 @@ def rewrite(R, fam, b):
     b = R.sub("R12g-count", r'int\s+num_all_points\s*=\s*getNumLoaded\(\)\s*\+\s*getNumNeeded\(\)\s*;', 'int num_all_points = g->points.n + g->needed.n;', b)
     b = R.sub("R12g-count", r'size_t\s+num_vals\s*=[^;]*;', '', b)
     b = R.sub("R10-self-call", r'(?<![\w.>])(updateValues|acceptUpdatedTensors)\(\s*(?:vals)?\s*\)\s*;', r'GF_%s_\1(g);' % fam, b)
+    b = R.sub("R10-self-call", r'(?<![\w.>])clearRefinement\(\)\s*;', r'GF_%s_clearRefinement(g);' % fam, b)
+    b = R.sub("R10-self-call", r'(?<![\w.>])loadNeededValues\(\s*c\s*\)\s*;', r'GF_%s_loadNeededValues(g);' % fam, b)
     # Global: tensors bookkeeping
     b = R.sub("R12g-tensors", r'(tensors|active_tensors|active_w)\s*=\s*std::move\(updated_\1\)\s*;', r'gh_take_updated_\1(g);', b)
     b = R.sub("R12g-tensors", r'updated_(tensors|active_tensors)\s*=\s*MultiIndexSet\(\)\s*;', r'gh_clear_updated_\1(g);', b)
